@@ -703,8 +703,10 @@ func lemmaCreateThenMapQueue(data []byte, cap uint32) {
 //@   exit     old(s.inFallbackState) ==> closed
 //@   exit     pushed ==> resetOK
 
+// reset (pool reuse): succeeds only for an open stream that carries no bytes from an earlier use
 //@ func (*Stream).reset
 //@   ensures  result == nil ==> !s.inFallbackState
+//@   ensures[C15] result == nil ==> s.state == 0 && s.recvBuf.len <= 0 && len(s.pendingData.unread) == 0
 //@   modifies heap
 
 //@ func (*streamPool).Session
@@ -922,8 +924,6 @@ func lemmaCreateThenMapQueue(data []byte, cap uint32) {
 //@   modifies heap
 //@ func (*Session).waitForSend
 //@   modifies heap
-//@ func (*Session).wakeUpPeer
-//@   modifies heap
 
 // ---------------------------------------------------------------------------
 // C06 layer 3 / C08: the linked buffer (buffer.go)
@@ -958,6 +958,7 @@ func lemmaCreateThenMapQueue(data []byte, cap uint32) {
 //@   modifies l.currentPinned, l.sliceList.len, l.sliceList.frontSlice, l.sliceList.backSlice, l.pinnedList.len, l.pinnedList.frontSlice, l.pinnedList.backSlice, l.pinnedList.backSlice.nextSlice, all(M)
 //@   modifies l.sliceList.frontSlice.isFromShm, l.sliceList.frontSlice.offsetInShm, l.sliceList.frontSlice.data, l.sliceList.frontSlice.bufferHeader, l.sliceList.frontSlice.cap, l.sliceList.frontSlice.writeIndex, l.sliceList.frontSlice.readIndex, l.sliceList.frontSlice.start, l.sliceList.frontSlice.nextSlice
 
+//@ stable Stream.inFallbackState   // written only by Flush, reset and the receive path (moveToWithoutLock): not by the callees abstracted in Flush
 //@ stable linkedBuffer.sliceList, linkedBuffer.pinnedList, linkedBuffer.bufferManager, linkedBuffer.stream
 
 // ReadBytes after the refill. Fast path: the result is exactly the next size bytes of the front slice
@@ -1053,3 +1054,100 @@ func lemmaUpdateThenNew(s *bufferSlice) {
 //@   requires bufOK(l)
 //@   ensures[C08] l.pinnedList.len == 0
 //@   at call (*sliceList).size#0 assume l.sliceList.len > 0 ==> l.sliceList.frontSlice != nil && (l.sliceList.len > 1 ==> l.sliceList.frontSlice.nextSlice != nil) && listOK(l.sliceList)
+
+// thin contracts used by Flush / close / clean (C05, C07, C09)
+//@ func (*linkedBuffer).recycle
+//@   modifies heap
+//@ func (*linkedBuffer).done
+//@   modifies heap
+//@ func (*linkedBuffer).clean
+//@   modifies heap
+//@ func (*pendingData).clear
+//@   modifies heap
+//@ func (*Stream).writeFallback
+//@   modifies heap
+//@ func (*Session).onStreamClose
+//@   modifies heap
+
+// ---------------------------------------------------------------------------
+// C05 / C07 / C09 shards on Stream.Flush, Stream.close, Stream.clean, wakeUpPeer, markNotWorking
+// ---------------------------------------------------------------------------
+//@ func (*Stream).Flush
+//@   preserves sessOK(s.session)
+//@   assume   s.sendBuf.len != 0 ==> s.sendBuf.sliceList.frontSlice != nil   // Len accounts the slices (not mechanised, see C06)
+//@   ghost var putTried bool = false
+//@   ghost var putOK bool = false
+//@   ghost var woke bool = false
+//@   ghost var recycled bool = false
+//@   ghost var fellBack bool = false
+//@   ghost var notShm bool = false
+//@   at call (*queue).put#0 hint[C07] a1.seqID == s.id && a1.status == state
+//@   at call (*queue).put#1 hint[C07] a1.seqID == s.id && a1.status == state
+//@   at call (*queue).put#0 ghost putTried := true
+//@   at call (*queue).put#1 ghost putTried := true
+//@   at call (*queue).put#0 ghost putOK := r0 == nil
+//@   at call (*queue).put#1 ghost putOK := r0 == nil
+//@   at call? (*Session).wakeUpPeer#0 ghost woke := true
+//@   at call? (*linkedBuffer).recycle#0 ghost recycled := true
+//@   at call? (*linkedBuffer).recycle#1 ghost recycled := true
+//@   at call? (*linkedBuffer).isFromShareMemory#0 ghost notShm := !r0
+//@   at call? (*Stream).writeFallback#0 hint[C07] s.inFallbackState
+//@   at call? (*Stream).writeFallback#0 ghost fellBack := true
+//@   exit[C05] putOK ==> woke                                   // a successful enqueue is always followed by the wake-up attempt
+//@   exit[C09] r0 != nil && !fellBack ==> recycled              // every error exit gives the send buffer back
+//@   exit[C07] (old(s.inFallbackState) || notShm) ==> !putTried // once a stream used the socket path it never uses the queue again (ordering)
+//@   exit[C07] notShm ==> fellBack
+//@   loop 0 invariant (putOK ==> err == nil) && !woke && !recycled && !fellBack && !notShm && !old(s.inFallbackState) && state == 0 && sessOK(s.session) && putTried
+//@   at call? (*linkedBuffer).rootBufOffset#0 assume buf.sliceList.frontSlice != nil
+//@   at call? (*linkedBuffer).rootBufOffset#1 assume buf.sliceList.frontSlice != nil
+//@   modifies heap
+
+// C05: the consumer-working flag
+//@ func (*queue).consumerIsWorking
+//@   requires wfQueue(q)
+//@   ensures  result <==> *q.workingFlag > 0
+//@   modifies nothing
+
+//@ func (*queue).markWorking
+//@   requires wfQueue(q)
+//@   ensures  result <==> old(*q.workingFlag) == 0
+//@   ensures  result ==> *q.workingFlag == 1
+//@   ensures  !result ==> *q.workingFlag == old(*q.workingFlag)
+//@   ensures  wfQueue(q) && *q.head == old(*q.head) && *q.tail == old(*q.tail)
+//@   modifies *q.workingFlag
+
+// markNotWorking: clear the flag FIRST, then re-check the queue; leave (true) only through a re-check
+// that found the queue empty after the flag was cleared, otherwise restore the flag.
+//@ func (*queue).markNotWorking
+//@   requires wfQueue(q)
+//@   ghost var cleared bool = false
+//@   ghost var rechecked bool = false
+//@   at call? sync/atomic.StoreUint32#0 ghost cleared := a1 == 0
+//@   at call? (*queue).size#0 ghost rechecked := cleared
+//@   exit[C05] result ==> rechecked && *q.workingFlag == 0 && *q.tail == *q.head
+//@   exit[C05] !result ==> *q.workingFlag == 1
+//@   ensures  wfQueue(q) && *q.head == old(*q.head) && *q.tail == old(*q.tail)
+//@   ensures  result <==> old(*q.tail) == old(*q.head)
+//@   modifies *q.workingFlag
+
+// wakeUpPeer: the producer that wins the flag hands over exactly one polling event (written directly
+// or queued for the send goroutine); a producer that loses the flag sends nothing.
+//@ func (*Session).wakeUpPeer
+//@   preserves sessOK(s)
+//@   ghost var won bool = false
+//@   ghost var handed int = 0
+//@   at call (*queue).markWorking#0 ghost won := r0
+//@   at call? (*Session).writeEventData#0 ghost handed := handed + 1
+//@   at call? chansend#0 ghost handed := handed + 1
+//@   exit[C05] (won ==> handed == 1) && (!won ==> handed == 0)
+//@   modifies heap
+
+//@ func (*Session).writeEventData
+//@   modifies heap
+
+//@ func (*Stream).setCallbacks
+//@   trusted  stores the callback through an atomic unsafe.Pointer (not modelled)
+//@   modifies s.callback
+//@ func (*Stream).getCallbacks
+//@   trusted  loads the callback through an atomic unsafe.Pointer (not modelled)
+//@   modifies nothing
